@@ -285,6 +285,22 @@ CHECKS = {
              'native stand-in.',
         technique='AST-generated verification conditions over the real source against abstract connectivity tables and kept-set selections, z3; bounded native clips saved, reopened and compared polygon by polygon',
         design_ref='Part III C09'),
+    'C14': dict(
+        category='proof',
+        text='operations.triangulate._triangulate_polygons_by_length (real body): for any number of convex cells with n vertices each (n = 3..8 and '
+             'n symbolic) the result has shape (cells, n - 2, 3, 2) and triangle t of cell p has corners vertex 0, t + 1 and t + 2 of that cell, '
+             'bit for bit, all corner indexes valid. Lemmas over the reals discharged by z3: the signed areas of the n - 2 fan triangles add up to '
+             'the signed area of the polygon (n = 3..8), and in a convex anticlockwise ring every fan triangle is anticlockwise or flat -- hence '
+             'the fan covers a convex cell exactly and without overlap. BOUNDED (native, not proved): triangulate_dataset (pandas index joins, '
+             'loops carrying counters over numpy.unique of cell sizes) and _triangulate_concave_polygon (ear clipping driven by shapely '
+             'predicates) are outside the verifier; they are checked on 15 ring shapes (3..8 sides, reflex and collinear vertices, both windings, '
+             'every starting vertex), convention datasets with holes and a grid with holes ahead of a concave cell, against an exact rational '
+             'oracle: n - 2 triangles per cell, corners are cell vertices, containment, areas sum exactly, no duplicate vertices, valid indexes, '
+             'no triangle for cells without geometry.',
+        note=TRUST + 'Assumed: SHAPELY-GET-COORDINATES / SHAPELY-RING-CLOSED, NP-REPEAT / NP-STACK / NP-RESHAPE, A-REAL. Everything outside '
+             '_triangulate_polygons_by_length is bounded native only.',
+        technique='AST-generated verification conditions over the real source for the bulk fan triangulation plus real-arithmetic lemmas, z3; the remaining functions by bounded native comparison with an exact rational oracle (not proved)',
+        design_ref='Part III C14'),
 }
 
 NOT_YET = 'check not built yet (work in progress, see DESIGN.md)'
